@@ -143,6 +143,19 @@ pub fn run(tier: Tier, seed: u64) -> i32 {
             );
         }
     }
+    if tier == Tier::Thorough {
+        // Library writer under Miri: 16 scheduler seeds must give one archive.
+        let oks = crate::miri::run_slices(&rep, "compress", 16, 0, "-Zmiri-disable-isolation");
+        let digests: std::collections::BTreeSet<String> = oks.iter().filter_map(|l| l.split("archive=").nth(1).map(|x| x.to_string())).collect();
+        rep.count("miri.compress.distinct_archives", digests.len() as u64);
+        if digests.len() > 1 {
+            rep.violation(
+                "c12/miri/library writer gives different archives under different Miri schedules",
+                json!({"digests": digests}),
+                json!({"engine": "miri", "what": "compress"}),
+            );
+        }
+    }
     if rep.counter("groups_with_distinct_completion_orders") == 0 {
         rep.broken("no group observed two different completion orders: injection ineffective".into());
     }
